@@ -1,10 +1,11 @@
-(* C16: stop_terminates — under weak fairness every stop-the-world section of the repaired handshake ends.
+(* C16: stop_terminates — under weak fairness every stop-the-world section of the repaired handshake ends
+   (scripts that spawn included: starting and registering a thread happen under the heap guard, which a section holds).
    Variant: (D+1) * (remaining steps of the stopper's own protocol) + sum over threads of
    (flagged: bound on the steps left before the thread is parked / blocked published; not flagged: D),
    i.e. a refinement of "number of threads not yet published". *)
 From Coq Require Import List Arith Lia Bool.
 Import ListNotations.
-From SV Require Import c15.Conc c15.Model_C15 c15.Proofs_C15_Base c15.Proofs_C15_Inv c16.Model_C16 c16.Proofs_C16.
+From SV Require Import c15.Conc c15.Model_C15 c15.Proofs_C15_Base c15.Proofs_C15_Inv c15.Proofs_C15_Excl c16.Model_C16 c16.Proofs_C16.
 
 
 (* ------------------------------------------------------------------ no thread will spawn *)
@@ -32,14 +33,20 @@ Proof.
   all: try (match goal with Hk : no_spawn _ |- existsb is_spawn (prog (th _ ?k)) = false => apply Hk end).
 Qed.
 
-(* a step of a thread that is not inside a stop-the-world section touches no other thread *)
-Lemma frame_step : forall t w w' u, no_spawn w -> wstep cfg_fixed t w = Some w' ->
-  (forall s, pc (th w t) <> Stw s) -> u <> t -> th w' u = th w u.
+(* while another thread holds the heap guard (in particular during a stop-the-world section) a step of a thread
+   touches no other thread: starting and registering a thread happen under the guard *)
+Lemma not_holder : forall w t h, Inv w -> heap w = Some h -> t <> h -> holds_heap (th w t) = false.
 Proof.
-  intros t w w' u Hns H Hnot Hne.
-  step_cases_fixed H; kill_spawn.
-  all: try solve [exfalso; eapply Hnot; eauto].
-  all: prep; try congruence; try reflexivity.
+  intros w t h HI Hh Hne. destruct (holds_heap (th w t)) eqn:E; auto. apply (I_heap w HI t) in E. congruence.
+Qed.
+
+Lemma frame_step : forall t w w' u h, Inv w -> heap w = Some h -> t <> h -> wstep cfg_fixed t w = Some w' ->
+  u <> t -> th w' u = th w u.
+Proof.
+  intros t w w' u h HI Hh Hth H Hne.
+  pose proof (not_holder w t h HI Hh Hth) as Hnh. unfold holds_heap in Hnh.
+  step_cases_fixed H.
+  all: prep; try congruence; try reflexivity; try discriminate.
 Qed.
 
 Lemma nthreads_step : forall cfg t w w', wstep cfg t w = Some w' -> nthreads w' = nthreads w.
@@ -82,14 +89,13 @@ Proof.
 Qed.
 
 (* steps outside a section leave flags and registrations alone *)
-Lemma nonstw_step_keeps : forall t w w', no_spawn w -> wstep cfg_fixed t w = Some w' ->
-  (forall s, pc (th w t) <> Stw s) ->
+Lemma nonstw_step_keeps : forall t w w' h, Inv w -> heap w = Some h -> t <> h -> wstep cfg_fixed t w = Some w' ->
   paused (th w' t) = paused (th w t) /\ reg (th w' t) = reg (th w t).
 Proof.
-  intros t w w' Hns H Hnot.
-  step_cases_fixed H; kill_spawn.
-  all: try solve [exfalso; eapply Hnot; eauto].
-  all: prep; try rewrite Nat.eqb_refl; simpl; auto.
+  intros t w w' h HI Hh Hth H.
+  pose proof (not_holder w t h HI Hh Hth) as Hnh. unfold holds_heap in Hnh.
+  step_cases_fixed H.
+  all: prep; try rewrite Nat.eqb_refl; simpl; auto; try congruence; try discriminate.
 Qed.
 
 (* a stopper's step changes neither pc nor registration of any other thread *)
@@ -102,10 +108,10 @@ Proof.
   all: prep; auto; try congruence.
 Qed.
 
-Lemma Flagged_step : forall t w w', Inv w -> no_spawn w -> Flagged w ->
+Lemma Flagged_step : forall t w w', Inv w -> Flagged w ->
   wstep cfg_fixed t w = Some w' -> Flagged w'.
 Proof.
-  intros t w w' HI Hns HF H h s Hpc.
+  intros t w w' HI HF H h s Hpc.
   assert (HI' : Inv w') by (eapply Inv_step; eauto).
   destruct (pc (th w t)) eqn:Ept.
   all: try (
@@ -113,13 +119,16 @@ Proof.
     assert (Hnot : forall x, pc (th w t) <> Stw x) by (intros x E; rewrite Ept in E; discriminate);
     destruct (Nat.eq_dec h t) as [->|Hne];
     [ (* t itself became a stopper: only Held -> Stw SOwnFlag *)
-      revert Hpc; clear HF; step_cases_fixed H; kill_spawn; try congruence; prep;
-      try rewrite Nat.eqb_refl; simpl; intro Hpc; try discriminate; inversion Hpc; subst; exact I
-    | rewrite (frame_step t w w' h Hns H Hnot Hne) in Hpc;
-      pose proof (HF h s Hpc) as Hold;
+      destruct (nonstw_own2 t w w' H Hnot) as (_ & _ & _ & _ & Hos); rewrite (Hos s Hpc); exact I
+    | assert (Hpcw : pc (th w h) = Stw s)
+        by (destruct (nonstw_frame2 t w w' h H Hnot Hne) as (_ & _ & [E|[E1 E2]] & _);
+            [congruence | rewrite E2 in Hpc; discriminate]);
+      assert (Hh : heap w = Some h) by (apply (I_heap w HI h); unfold holds_heap; now rewrite Hpcw);
+      assert (Hth : t <> h) by auto;
+      pose proof (HF h s Hpcw) as Hold;
       assert (Hsame : forall u, paused (th w' u) = paused (th w u) /\ reg (th w' u) = reg (th w u));
       [ intro u; destruct (Nat.eq_dec u t) as [->|Hu];
-        [ eapply nonstw_step_keeps; eauto | rewrite (frame_step t w w' u Hns H Hnot Hu); auto ]
+        [ eapply nonstw_step_keeps; eauto | rewrite (frame_step t w w' u h HI Hh Hth H Hu); auto ]
       | destruct s; simpl in *; auto; intros u; destruct (Hsame u) as [-> ->]; auto ] ]).
   (* t is the stopper *)
   assert (h = t).
@@ -261,39 +270,39 @@ Proof.
 Qed.
 
 (* ---- steps of the other threads *)
-Lemma dist_step : forall u h w w', Inv w -> no_spawn w -> heap w = Some h -> u <> h ->
+Lemma dist_step : forall u h w w', Inv w -> heap w = Some h -> u <> h ->
   paused (th w u) = true -> wstep cfg_fixed u w = Some w' -> dist (th w' u) < dist (th w u).
 Proof.
-  intros u h w w' HI Hns Hh Hne Hp H.
+  intros u h w w' HI Hh Hne Hp H.
   pose proof (I_nolock w HI u) as Hnl.
   assert (Hnh : holds_heap (th w u) = false).
   { destruct (holds_heap (th w u)) eqn:E; auto. apply (I_heap w HI u) in E. congruence. }
   unfold holds_heap in Hnh.
-  step_cases_fixed H; kill_spawn; try congruence.
-  all: unfold dist; prep; rewrite ?Nat.eqb_refl; simpl; try congruence; try lia.
+  step_cases_fixed H; try congruence.
+  all: unfold dist; prep; rewrite ?Nat.eqb_refl; simpl; try congruence; try lia; try discriminate.
 Qed.
 
-Lemma M_other_step : forall u h w w', Inv w -> no_spawn w -> is_stw (pc (th w h)) = true -> u <> h ->
+Lemma M_other_step : forall u h w w', Inv w -> is_stw (pc (th w h)) = true -> u <> h ->
   wstep cfg_fixed u w = Some w' ->
   is_stw (pc (th w' h)) = true /\
   (if paused (th w u) then M h w' < M h w else M h w' = M h w).
 Proof.
-  intros u h w w' HI Hns Ha Hne H.
+  intros u h w w' HI Ha Hne H.
   destruct (is_stw_inv _ Ha) as [s Es].
   assert (Hh : heap w = Some h) by (apply (I_heap w HI h); unfold holds_heap; now rewrite Es).
   assert (Hnot : forall x, pc (th w u) <> Stw x).
   { intros x E. apply Hne. eapply stw_unique; eauto. }
   pose proof (nthreads_step _ _ _ _ H) as Hn.
-  assert (Hfr : forall t, t <> u -> th w' t = th w t) by (intros; eapply frame_step; eauto).
+  assert (Hfr : forall t, t <> u -> th w' t = th w t) by (intros; eapply (frame_step u w w' t h); eauto).
   assert (Hsum : csum w' + contrib (th w u) = csum w + contrib (th w' u)).
   { apply csum_pointwise; auto. intros t Ht. now rewrite Hfr. }
-  destruct (nonstw_step_keeps u w w' Hns H Hnot) as [Hp _].
+  destruct (nonstw_step_keeps u w w' h HI Hh Hne H) as [Hp _].
   assert (Ehh : th w' h = th w h) by (apply Hfr; auto).
   split; [now rewrite Ehh|].
   assert (Erk : rk h w' = rk h w) by (unfold rk; now rewrite Ehh, Hn).
   unfold M. rewrite Erk. unfold contrib in Hsum. rewrite Hp in Hsum.
   destruct (paused (th w u)) eqn:Epu.
-  - pose proof (dist_step u h w w' HI Hns Hh Hne Epu H). lia.
+  - pose proof (dist_step u h w w' HI Hh Hne Epu H). lia.
   - lia.
 Qed.
 
@@ -340,7 +349,7 @@ Section Live.
   Variable h : tid.
   Variable n : nat.
 
-  Definition LInv (w : world) : Prop := Inv w /\ Flagged w /\ no_spawn w /\ nthreads w = n.
+  Definition LInv (w : world) : Prop := Inv w /\ Flagged w /\ nthreads w = n.
   Definition Active (w : world) : Prop := is_stw (pc (th w h)) = true.
   Definition helpful (t : tid) (w : world) : Prop :=
     (t = h /\ exists w', wstep cfg_fixed h w = Some w') \/
@@ -349,10 +358,9 @@ Section Live.
 
   Lemma LInv_step : forall t w w', LInv w -> wstep cfg_fixed t w = Some w' -> LInv w'.
   Proof.
-    intros t w w' (HI & HF & Hns & Hn) H. split; [|split; [|split]].
+    intros t w w' (HI & HF & Hn) H. split; [|split].
     - eapply Inv_step; eauto.
     - eapply Flagged_step; eauto.
-    - eapply no_spawn_step; eauto.
     - rewrite <- Hn. eapply nthreads_step; eauto.
   Qed.
 
@@ -362,10 +370,10 @@ Section Live.
   Lemma step_measure : forall t w w', LInv w -> Active w -> wstep cfg_fixed t w = Some w' -> Active w' ->
     (if Nat.eqb t h || paused (th w t) then M h w' < M h w else M h w' = M h w).
   Proof.
-    intros t w w' (HI & HF & Hns & Hn) Ha H Ha'.
+    intros t w w' (HI & HF & Hn) Ha H Ha'.
     destruct (Nat.eqb_spec t h) as [->|Hne]; simpl.
     - apply M_stopper_step; auto.
-    - destruct (M_other_step t h w w' HI Hns Ha Hne H) as [_ Hm]. exact Hm.
+    - destruct (M_other_step t h w w' HI Ha Hne H) as [_ Hm]. exact Hm.
   Qed.
 
   Lemma non_increase : forall t w w', LInv w -> Active w -> wstep cfg_fixed t w = Some w' -> Active w' ->
@@ -377,7 +385,7 @@ Section Live.
 
   Lemma some_helpful : forall w, LInv w -> Active w -> exists t, t < n /\ helpful t w.
   Proof.
-    intros w (HI & HF & Hns & Hn) Ha. destruct (is_stw_inv _ Ha) as [s Es].
+    intros w (HI & HF & Hn) Ha. destruct (is_stw_inv _ Ha) as [s Es].
     destruct (stopper_progress w h s HI Es) as [He | [k Hb]].
     - exists h. split.
       + rewrite <- Hn. apply in_range_of_pc. rewrite Es. discriminate.
@@ -392,11 +400,11 @@ Section Live.
     intros t w HL Ha [[-> [w' He]] | (Hne & Hlt & Hp & Hr & Hd & Hpub)].
     - exists w'. split; auto. intro Ha'. pose proof (step_measure h w w' HL Ha He Ha') as Hm.
       rewrite Nat.eqb_refl in Hm. exact Hm.
-    - destruct HL as (HI & HF & Hns & Hn). destruct (is_stw_inv _ Ha) as [s Es].
+    - destruct HL as (HI & HF & Hn). destruct (is_stw_inv _ Ha) as [s Es].
       assert (Hh : heap w = Some h) by (apply (I_heap w HI h); unfold holds_heap; now rewrite Es).
       destruct (unpublished_enabled w t h HI Hh Hne Hr Hd Hpub) as [w' He].
       exists w'. split; auto. intro Ha'.
-      pose proof (step_measure t w w' (conj HI (conj HF (conj Hns Hn))) Ha He Ha') as Hm.
+      pose proof (step_measure t w w' (conj HI (conj HF Hn)) Ha He Ha') as Hm.
       rewrite Hp, orb_true_r in Hm. exact Hm.
   Qed.
 
@@ -408,10 +416,11 @@ Section Live.
     destruct (Nat.eqb_spec u h) as [->|Hune]; simpl in Hm; [lia|].
     destruct (paused (th w u)) eqn:Epu; [lia|].
     pose proof (LInv_step u w w' HL H) as HL'.
-    destruct HL as (HI & HF & Hns & Hn). destruct (is_stw_inv _ Ha) as [s Es].
+    destruct HL as (HI & HF & Hn). destruct (is_stw_inv _ Ha) as [s Es].
     assert (Hnot : forall x, pc (th w u) <> Stw x).
     { intros x E. apply Hune. eapply stw_unique; eauto. }
-    assert (Hfr : forall v, v <> u -> th w' v = th w v) by (intros; eapply frame_step; eauto).
+    assert (Hhp : heap w = Some h) by (apply (I_heap w HI h); unfold holds_heap; now rewrite Es).
+    assert (Hfr : forall v, v <> u -> th w' v = th w v) by (intros; eapply (frame_step u w w' v h); eauto).
     destruct Hh as [[-> [w1 He]] | (Hne & Hlt & Hp & Hr & Hd & Hpub)].
     - left. split; auto.
       assert (Es' : pc (th w' h) = Stw s) by (rewrite Hfr; auto).
@@ -423,7 +432,7 @@ Section Live.
       (* h was enabled in w; in w' it waits for k *)
       destruct Hb as [[p ->] [Hk [Hr [Hne [Hd Hp]]]]].
       destruct (Nat.eq_dec k u) as [->|Hku].
-      + destruct (nonstw_step_keeps u w w' Hns H Hnot) as [_ Hreg]. rewrite Hreg in Hr.
+      + destruct (nonstw_step_keeps u w w' h HI Hhp Hune H) as [_ Hreg]. rewrite Hreg in Hr.
         pose proof (HF h _ Es u Hune Hr). congruence.
       + rewrite (Hfr k Hku) in *.
         assert (Hbw : blocked_on w h (SWait p k) k).
@@ -473,20 +482,52 @@ Proof.
   intros. eapply LInv_step; eauto.
 Qed.
 
+Lemma stop_terminates_init_all_spawning : forall progs sched h f,
+  let w := run cfg_fixed sched (init_all progs) in
+  is_stw (pc (th w h)) = true ->
+  fair (length progs) f ->
+  exists k, is_stw (pc (th (run_stream cfg_fixed f k w) h)) = false.
+Proof.
+  intros progs sched h f w Ha Hf.
+  assert (HL : LInv (length progs) w).
+  { apply LInv_run. split; [|split].
+    - apply Inv_init_all.
+    - apply Flagged_init_all.
+    - unfold nthreads, init_all. cbn [ths]. apply map_length. }
+  destruct (stop_terminates_from h (length progs) w f HL Hf) as [k Hk].
+  exists k. unfold Active in Hk. unfold run_stream.
+  destruct (is_stw (pc (th (Conc.run_stream world (wstep cfg_fixed) f k w) h))); auto. now elim Hk.
+Qed.
+
 Lemma stop_terminates_init_all : forall progs sched h f,
   no_spawn_progs progs = true ->
   let w := run cfg_fixed sched (init_all progs) in
   is_stw (pc (th w h)) = true ->
   fair (length progs) f ->
   exists k, is_stw (pc (th (run_stream cfg_fixed f k w) h)) = false.
+Proof. intros progs sched h f _. apply stop_terminates_init_all_spawning. Qed.
+
+(* from the real initial world (only the main thread started), scripts that spawn included *)
+Lemma Flagged_init : forall progs, Flagged (init progs).
 Proof.
-  intros progs sched h f Hns w Ha Hf.
+  intros progs h s E. exfalso. destruct (pc_init_cases progs h) as [A|[A|A]]; rewrite A in E; discriminate.
+Qed.
+
+Lemma nthreads_init : forall progs, nthreads (init progs) = length progs.
+Proof. intros [|p r]; unfold nthreads, init; cbn [ths]; simpl; auto. now rewrite map_length. Qed.
+
+Lemma stop_terminates_init : forall progs sched h f,
+  let w := run cfg_fixed sched (init progs) in
+  is_stw (pc (th w h)) = true ->
+  fair (length progs) f ->
+  exists k, is_stw (pc (th (run_stream cfg_fixed f k w) h)) = false.
+Proof.
+  intros progs sched h f w Ha Hf.
   assert (HL : LInv (length progs) w).
-  { apply LInv_run. split; [|split; [|split]].
-    - apply Inv_init_all.
-    - apply Flagged_init_all.
-    - apply no_spawn_init_all; auto.
-    - unfold nthreads, init_all. cbn [ths]. apply map_length. }
+  { apply LInv_run. split; [|split].
+    - apply Inv_init.
+    - apply Flagged_init.
+    - apply nthreads_init. }
   destruct (stop_terminates_from h (length progs) w f HL Hf) as [k Hk].
   exists k. unfold Active in Hk. unfold run_stream.
   destruct (is_stw (pc (th (Conc.run_stream world (wstep cfg_fixed) f k w) h))); auto. now elim Hk.
@@ -505,10 +546,17 @@ Lemma live_example :
   is_stw (pc (th (run_stream cfg_fixed rr3 60 (run cfg_fixed live_sched (init_all live_progs))) 0)) = false.
 Proof. vm_compute. auto. Qed.
 
+Lemma spawning_example :
+  let w := run cfg_fixed spawning_sched (init spawning_progs) in
+  pc (th w 0) = Stw SStopLock /\ reg (th w 1) = true /\ pc (th w 2) = NotStarted /\
+  is_stw (pc (th (run_stream cfg_fixed rr3 75 w) 0)) = false /\
+  (let w' := run_stream cfg_fixed rr3 120 w in pc (th w' 0) = Done /\ pc (th w' 1) = Done /\ pc (th w' 2) = Done).
+Proof. vm_compute. auto 10. Qed.
+
 (* the hypothesis was needed for the tree before 56291059 (spawn_locked = false): a thread registered after
    stop_threads has passed is never flagged, and the stopper stays blocked for as long as that thread runs without
    entering a safepoint.  With thread creation under the heap guard no registration falls inside a section
-   (Proofs_C15_Spawn); the termination proof itself has not been extended to scripts that spawn. *)
+   (Proofs_C15_Spawn) and stop_terminates_init above covers scripts that spawn. *)
 Lemma late_registration_delays :
   let w := run cfg_pre_spawn_fix late_sched (init late_progs) in
   pc (th w 2) = Stw (SWait 1 1) /\ reg (th w 1) = true /\ paused (th w 1) = false /\
